@@ -2,6 +2,7 @@
 //! See /verif/DESIGN.md.
 
 pub mod alloc;
+pub mod appengine;
 pub mod gen;
 pub mod h1engine;
 pub mod httpwire;
